@@ -10,6 +10,32 @@ NOTE = ("Trusted: Coq 8.16.1 kernel + vm_compute; no axioms (Print Assumptions c
         "its ExtrOcamlBasic extraction vs the implementation built from the working tree); Rust harness, python generators.")
 
 CHECKS = {
+    "C04": dict(
+        category="proof",
+        text="Theorem C04_roundtrip (Props/C04.v), for ALL abstract programs of the SPL grammar (precedence levels, left "
+             "associativity, one non-associative comparison, unary minus, array accesses, else bound to the nearest if by the "
+             "predicate prog_ok) with comment lists in every token gap, and ALL token vectors whose kinds are the program's "
+             "flattening: the parser model returns exactly the mandated tree `expected p` (every range, every Reference offset) "
+             "with no syntax diagnostic (C04_no_syntax_diag, C04_ranges_exact), and the parser depends on token kinds only, "
+             "for every token vector (C04_parser_sees_kinds_only), hence layout independence. The model is tied to "
+             "spl_frontend::parser::parse by differential runs on generated programs x layouts (extracted judge on all cases, "
+             "coqc VM on a sample) and the real lexer's kinds are compared with the flattening on every case; lexical conformance "
+             "itself is C06's.",
+        design_ref="DESIGN.md section 5, C04",
+        technique="Coq proof (structural induction over the abstract syntax with explicit fuel bounds) over a Gallina model of the parser + model/implementation correspondence"),
+    "C05": dict(
+        category="other",
+        text="Machine-checked for ALL token lists ending with their only Eof (Props/C05.v, from Proofs/Parser*.v): error "
+             "recovery resynchronises at every proc/type keyword (one-to-one, order-preserving correspondence between "
+             "Type/Procedure declarations and the keywords), the declarations tile the token vector without gaps, and the parse "
+             "of a declaration depends only on the tokens up to the next proc/type/Eof (so no damage influences a declaration "
+             "in front of it). Not proved: the shift-invariance half (declarations behind the damage), table entries and "
+             "diagnostic positions - these are decided by an exhaustive-per-program single-token damage campaign on the "
+             "implementation (every non-keyword token of one declaration x delete / replace by 31 tokens / insert 31 tokens). "
+             "Two narrow classes of genuine containment failures are recorded as known findings (C05-closing-brace-stmt, "
+             "C05-trailing-comment); everything else is reported.",
+        design_ref="DESIGN.md section 5, C05",
+        technique="Coq proof of resynchronisation, tiling and locality over a Gallina model of the parser + exhaustive single-token damage campaign on the implementation"),
     "C01": dict(
         category="other",
         text="Machine-checked (Props/C01.v), for ALL documents and ALL edit histories: the text and the token stream of the "
